@@ -131,8 +131,19 @@ func c14(r *core.Run) {
 			}
 		}
 		r.CallSites(len(all))
-		if len(acting) < 2 {
-			r.Undecided("C14/R1", us.key+":acting-effects", p.Pos(fn.Pos()), fmt.Sprintf("expected at least two acting effects (act + consume form), found %d", len(acting)))
+		actOps := map[string]bool{}
+		for _, e := range acting {
+			for _, o := range e.Store {
+				if !(o.Kind == "Set" && o.Module+"/"+o.Prefix == us.formPrefix) {
+					actOps[o.Kind+" "+o.Module+"/"+o.Prefix] = true
+				}
+			}
+			if len(e.Bank) > 0 {
+				actOps["bank"] = true
+			}
+		}
+		if len(actOps) < 2 {
+			r.Undecided("C14/R1", us.key+":acting-effects", p.Pos(fn.Pos()), fmt.Sprintf("expected at least two acting operations (act + consume form), found %d", len(actOps)))
 		}
 		for _, g := range []struct {
 			name string
@@ -594,9 +605,17 @@ func tallyHelper(p *core.Program, v ssa.Value) (*ssa.Function, *ssa.Phi, *ssa.Ca
 		return nil, nil, nil
 	}
 	var phi *ssa.Phi
+	failing := map[*ssa.Return]bool{}
+	if p.FailResultsDead(call, idx, cs[0]) {
+		for _, ri := range p.Returns(cs[0]) {
+			if ri.Class == core.RetFail {
+				failing[ri.Ret] = true // what is returned next to a non-nil error is not the tally, and is never used
+			}
+		}
+	}
 	for _, b := range cs[0].Blocks {
 		ret, ok := b.Instrs[len(b.Instrs)-1].(*ssa.Return)
-		if !ok {
+		if !ok || failing[ret] {
 			continue
 		}
 		if idx >= len(ret.Results) {
